@@ -281,7 +281,13 @@ void DNS_ICACHE_FLASH_ATTR supla_esp_dns_resolve(
   supla_esp_dns_request_release();
   dns_client_vars.dns_query_result_cb = dns_query_result_cb;
 
+  // A request that can not be sent fails at once: without this reset,
+  // supla_esp_dns_result() would act on the outcome of the previous request.
+  dns_client_vars.success = 0;
+  dns_client_vars.try_counter = DNS_SERVER_COUNT;
+
   if (domain == NULL) {
+    supla_esp_dns_result();
     return;
   }
 
